@@ -258,6 +258,10 @@ class Body:
             de, db = model.DELTA.get(i["op"], (0, 0))
             named("nonneg@%d" % pc, "(and (>= e%d 0) (>= b%d 0) (>= (+ e%d %s) 0) (>= (+ b%d %s) 0))" % (pc, pc, pc, num(de), pc, num(db)),
                   "%s at %d keeps env/bind depth non-negative" % (i["op"], pc))
+            if i["op"] == "Return":
+                # a normal completion never happens in the middle of an assignment expression (abrupt generator/async
+                # completions travel through Throw/ReThrow), so no binding reference may be pending
+                named("return-bind0@%d" % pc, "(= b%d 0)" % pc, "Return at %d is reached with an empty binding-reference stack" % pc)
             for t, kind in self.succ.get(pc, []):
                 if kind == "jump" and pc in repair_sites:
                     named("edge@%d->%d" % (pc, t), "(and (= e%d e%d) (= b%d (+ b%d (- 1))))" % (t, pc, t, pc),
